@@ -166,7 +166,7 @@ class FingerprintDatabase(object):
 
         dtype = self.fp_type.vector_dtype
 
-        if self.fp_num > 0:
+        if self.fp_num > 0 or len(self.props) > 0:
             prop_names = self.props.keys()
         else:
             prop_names = [
